@@ -3,6 +3,7 @@ mod checks;
 mod cli;
 mod cnode;
 mod exec;
+mod export;
 mod gen;
 mod guard;
 mod judges;
@@ -93,6 +94,15 @@ fn real_main(args: &[String]) -> i32 {
             let tier = arg_val(args, "--tier").or_else(|| std::env::var("VERIF_TIER").ok()).unwrap_or_else(|| "quick".into());
             let seed = arg_val(args, "--seed").or_else(|| std::env::var("VERIF_SEED").ok()).and_then(|s| s.parse().ok()).unwrap_or(1u64);
             runner::merge_parts(&prop, &parts, seed, &tier)
+        }
+        "export-c" => {
+            let g = |n: &str| arg_val(args, n).and_then(|s| s.parse::<u64>().ok()).unwrap_or(0);
+            let seed = arg_val(args, "--seed").or_else(|| std::env::var("VERIF_SEED").ok()).and_then(|s| s.parse().ok()).unwrap_or(1u64);
+            export::export_c(seed, g("--count"), g("--shards").max(1), &arg_val(args, "--out").unwrap_or_default(), arg_val(args, "--tier").as_deref() == Some("thorough"))
+        }
+        "export-c-one" => {
+            let g = |n: &str| arg_val(args, n).and_then(|s| s.parse::<u64>().ok()).unwrap_or(0);
+            export::export_one(g("--seed"), g("--index"), &arg_val(args, "--out").unwrap_or_default(), arg_val(args, "--tier").as_deref() == Some("thorough"))
         }
         "digest-plan" => runner::digest_plan(args.get(2).map(|s| s.as_str()).unwrap_or("")),
         "child" => match (args.get(2).map(|s| s.as_str()), args.get(3), args.get(4)) {
